@@ -173,13 +173,16 @@ PROPS.update({
 })
 
 def _gme(test, rule, nontriv):
-    return dict(kind="harness", pkg="./gmesim", test=test,
+    return dict(kind="harness", pkg="./gmesim", test=test, instr=True,
+                parts=[dict(pkg="./gmesim", test=test, replay_key="ops"), dict(pkg="./gmesim", test=test, replay_key="ops"), dict(pkg="./gmesim", test=test, replay_key="ops"),
+                       dict(pkg="./conc", test=test.replace("Test", "TestConc"), replay_key="goroutines", quick_checks=150, thorough_checks=3000)],
                 quick=dict(checks=350, shards=4, timeout=900),
                 thorough=dict(checks=6000, shards=12, timeout=3300),
                 rule="rapid-generated histories over a real GCPMultiEndpoint and four in-memory (bufconn) gRPC servers: option sets with 1-3 named MultiEndpoints over shared endpoints "
                      "(add/remove/rename MultiEndpoints, add/remove/reorder endpoints, change default), endpoint outages and recoveries (dialer refuses + live connections closed), RPCs (unary and stream) "
                      "with no / known / unknown MultiEndpoint name; a recording interceptor appended in DialFunc tells which pool every RPC entered. " + rule +
-                     " Non-trivial = " + nontriv + "; distinct = FNV-1a of the canonical JSON of the case.",
+                     " Non-trivial = " + nontriv + "; distinct = FNV-1a of the canonical JSON of the case. One shard in four runs concurrent workloads instead (engine conc, instrumented sources with "
+                     "schedule-perturbing yield points): RPCs on several names || UpdateMultiEndpoints || outages || GCPConfig(); invariant: no RPC or update panics, the workload finishes.",
                 assume=COMMON_ASSUME + ["real grpc-go 1.56.3 and real time; 'bounded time' is fixed at 10 s for routing to follow (measured: milliseconds) and 5 s for goroutines to exit (measured: 50 ms)",
                                         "when no endpoint of a MultiEndpoint is up only membership of the entered pool is demanded (stickiness is decided deterministically by C13)",
                                         "recovery timeout and switching delay are 0 in these histories"])
